@@ -228,6 +228,7 @@ def finish(pid, level, tier, subs, t0, assumptions=(), technique=""):
         "exhaustive": all(s.exhaustive for s in subs),
         "caps_hit": [c for s in subs for c in s.caps],
         "technique": technique,
+        "process_time_zone": "%s (%s)" % (os.environ.get("TZ", "unset"), "/".join(time.tzname)),
         "known_findings_matched": sorted("%s/%s" % k for k in printed_known),
         "samples": [dict(sub=s.name, **smp) for s in subs for smp in s.samples[:2]][:12] or [{"note": "no samples"}],
         "subchecks": [{"name": s.name, "engine": s.engine, "executions": s.executions, "states": s.states,
